@@ -51,4 +51,22 @@ def handed (limit : Nat) (h : SHistory) : List Nat :=
   | none => []
   | some s => if skipped limit s then [] else s :: traceSizes limit h (h.length - 1)
 
+/-- how many `filesystem.Run` calls the trace makes for the file's package (each with a FRESH walk context, hence a
+fresh inode counter, and each visiting exactly one inode: the file itself — also when the file is then skipped as
+oversize) -/
+def traceRuns (limit : Nat) (h : SHistory) : Nat → Nat
+  | 0 => 0
+  | i+1 =>
+    match viewSize h i with
+    | none => 0
+    | some s =>
+      if inDiffS h i then (if skipped limit s then 1 else 1 + traceRuns limit h i)
+      else traceRuns limit h i
+
+/-- inodes visited by the trace's re-runs during one `ScanContainer` (on top of the walk of the final view) -/
+def traceInodes (limit : Nat) (h : SHistory) : Nat :=
+  match viewSize h (h.length - 1) with
+  | none => 0
+  | some s => if skipped limit s then 0 else traceRuns limit h (h.length - 1)
+
 end Scalibr.TraceSize
